@@ -23,7 +23,7 @@ Content(keys, vals, hasvals, o4, bigLatch) ==
       R |-> R, rp |-> rp,
       nodes |-> BuildNodes(keys, vals, hasvals, o.dd, bigLatch),
       valset |-> IF hasvals THEN {vals[i] : i \in 1..n} ELSE {NilV},
-      loaded |-> FALSE, stat |-> <<>>, lastk |-> <<>>, lastq |-> <<>>, lastrender |-> <<>>, legacy |-> FALSE]
+      loaded |-> FALSE, stat |-> <<>>, lastk |-> <<>>, lastq |-> <<>>, lastrender |-> <<>>, legacy |-> FALSE, lbenc |-> TRUE]
 
 \* NewSlimTrie is all-or-nothing (C08):
 \*   "order"    the keys are not strictly ascending: rejected, no trie
